@@ -68,13 +68,16 @@ func genC20(t *rapid.T) C20Case {
 			Second: rapid.SampledFrom([]string{"wrong", "missing-entry", "corrupt", "asset-500", "checksum-404"}).Draw(t, "second")}
 	}
 	c := C20Case{Running: rapid.SampledFrom([]string{"dev", "dev", "v1.5.0", "v1.5.0", "v2.0.0", "none", "v2.1.0-rc1", "v2.1.0-rc1"}).Draw(t, "running")}
+	if rapid.IntRange(0, 6).Draw(t, "pkgbuild") == 0 {
+		c.Running = "v2.0.0-pkg"
+	}
 	n := rapid.SampledFrom([]int{0, 1, 1, 2, 2, 2, 3, 3, 4, 5}).Draw(t, "nrels")
 	tags := rapid.Permutation(c20Tags).Draw(t, "tags")[:n]
 	for _, tag := range tags {
 		r := C20Rel{Tag: tag}
 		r.Draft = rapid.IntRange(0, 11).Draw(t, "draft") == 0
 		r.Pre = rapid.IntRange(0, 9).Draw(t, "pre") == 0
-		r.Platform = rapid.SampledFrom([]string{"this", "this", "this", "this", "both", "both", "both", "other", "none"}).Draw(t, "platform")
+		r.Platform = rapid.SampledFrom([]string{"this", "this", "this", "this", "both", "both", "both", "other", "other", "none"}).Draw(t, "platform")
 		r.Archive = rapid.SampledFrom([]string{"tar.gz", "tar.gz", "tar.gz", "zip", "raw", "corrupt", "noexe"}).Draw(t, "archive")
 		r.Checksum = rapid.SampledFrom([]string{"ok", "ok", "ok", "ok", "absent", "wrong", "other-file", "malformed", "missing-entry"}).Draw(t, "checksum")
 		r.Extra = rapid.SampledFrom([]string{"", "", "", "deb-before", "deb-after", "sbom-before"}).Draw(t, "extra")
@@ -221,7 +224,7 @@ func build(c C20Case) ([]builtRel, relsrv.Catalogue) {
 		case "this":
 			br.assets = append(br.assets, mk("linux_amd64", true))
 		case "other":
-			br.assets = append(br.assets, mk("darwin_arm64", false), mk("linux_arm64", false))
+			br.assets = append(br.assets, mk("darwin_arm64", false), mk("linux_arm64", false), mk("linux_386", false), mk("darwin_amd64", false), mk("windows_amd64", false), mk("linux_armv6", false))
 		case "both":
 			br.assets = append(br.assets, mk("darwin_arm64", false), mk("linux_amd64", true), mk("windows_amd64", false))
 		}
@@ -280,6 +283,8 @@ func runningBinary(name string) string {
 		return filepath.Join(dir, "crs-toolchain-noversion")
 	case "v2.1.0-rc1":
 		return filepath.Join(dir, "crs-toolchain-v2.1.0-rc1")
+	case "v2.0.0-pkg":
+		return filepath.Join(dir, "crs-toolchain-v2.0.0-pkg")
 	}
 	return filepath.Join(dir, "crs-toolchain")
 }
@@ -430,7 +435,7 @@ func checkC20(c C20Case) Outcome {
 	out.Detail["exit"], out.Detail["stderr"], out.Detail["requests"] = r.Exit, headTail(r.Stderr, 4, 6), reqs
 	out.Detail["changed"] = before != after
 
-	running := parseSemver(map[string]string{"dev": "v0.0.0-dev", "v1.5.0": "v1.5.0", "v2.0.0": "v2.0.0", "none": "", "v2.1.0-rc1": "v2.1.0-rc1"}[c.Running])
+	running := parseSemver(map[string]string{"dev": "v0.0.0-dev", "v1.5.0": "v1.5.0", "v2.0.0": "v2.0.0", "none": "", "v2.1.0-rc1": "v2.1.0-rc1", "v2.0.0-pkg": "v2.0.0"}[c.Running])
 	newer := func(v semv) bool { return !running.ok || v.cmp(running) > 0 }
 
 	// reference: R = greatest candidate (non-draft, non-prerelease, semver tag, asset for this platform)
